@@ -2331,6 +2331,13 @@ func (r *Raft) initiateLeadershipTransfer(id *ServerID, address *ServerAddress) 
 
 // timeoutNow is what happens when a server receives a TimeoutNowRequest.
 func (r *Raft) timeoutNow(rpc RPC, req *TimeoutNowRequest) {
+	// Only a voter may stand for election. The sender picked us from its own
+	// configuration, which can be older than ours.
+	if !hasVote(r.configurations.latest, r.localID) {
+		r.logger.Warn("ignoring timeoutNow request since we are not a voter", "from", string(req.Addr))
+		rpc.Respond(&TimeoutNowResponse{}, ErrNotVoter)
+		return
+	}
 	r.setLeader("", "")
 	r.setState(Candidate)
 	r.candidateFromLeadershipTransfer.Store(true)
